@@ -3,6 +3,9 @@ use serde_with::serde_as;
 use starknet_crypto::Felt;
 use swiftness_commitment::vector;
 
+const MAX_LOG_BLOWUP_FACTOR: u64 = 16;
+const MAX_N_QUERIES: u64 = 48;
+
 #[serde_as]
 #[derive(Debug, PartialEq, Serialize, Deserialize)]
 pub struct StarkConfig {
@@ -50,6 +53,17 @@ impl StarkConfig {
     ) -> Result<(), Error> {
         self.proof_of_work.validate()?;
 
+        // The blow-up exponent and the number of queries are small integers; without these bounds
+        // `security_bits()` below is computed modulo the field prime.
+        ensure!(
+            self.log_n_cosets >= Felt::ONE && self.log_n_cosets <= MAX_LOG_BLOWUP_FACTOR.into(),
+            Error::OutOfBounds { min: 1, max: MAX_LOG_BLOWUP_FACTOR }
+        );
+        ensure!(
+            self.n_queries >= Felt::ONE && self.n_queries <= MAX_N_QUERIES.into(),
+            Error::OutOfBounds { min: 1, max: MAX_N_QUERIES }
+        );
+
         ensure!(security_bits <= self.security_bits(), Error::InsufficientSecurity);
 
         // Validate traces config.
@@ -91,6 +105,8 @@ pub enum Error {
     DynamicParamsMissing,
     #[error("insufficient number ofsecurity bits")]
     InsufficientSecurity,
+    #[error("value out of bounds {min} - {max}")]
+    OutOfBounds { min: u64, max: u64 },
 }
 
 #[cfg(not(feature = "std"))]
@@ -111,4 +127,6 @@ pub enum Error {
     DynamicParamsMissing,
     #[error("insufficient number ofsecurity bits")]
     InsufficientSecurity,
+    #[error("value out of bounds {min} - {max}")]
+    OutOfBounds { min: u64, max: u64 },
 }
